@@ -646,7 +646,7 @@ func runC17(a runArgs) error {
 	e := NewEmitter("C17", "Router.Run")
 	e.ShardSize = 60
 	e.Preamble = "From GoCoap Require Import Router.Model."
-	e.Rule = "mux.Router on fresh routers: (reg) Handle of one template with result and compiled regexp text; (disp) operation sequences Handle/HandleRemove/DefaultHandle + middlewares, then requests built from Uri-Path options through ServeCOAP with recording handlers; (conc) dispatch while goroutines add/remove routes; (hist) histories on one router: operations and requests interleaved, the same paths sent again after later Handle/HandleRemove/DefaultHandle; (adapt) such histories with every request sent through mux.ToHandler(router), RouteParams recorded as the first middleware / the handler sees them; (excl) one request whose scan is observed route by route (hook verifScanPoint): lock probed at every visit, Handle/HandleRemove/DefaultHandle issued by another goroutine while the scan is parked at its k-th route. Distinct = distinct descriptor; non-trivial = a disp case with at least two live routes in which at least one request reached a registered route, a reg case that compiled, or a hist case in which some path was answered by a different route (or default instead of a route, or vice versa) than when it was sent before the operations in between, an adapt case in which a request followed one whose route had a variable name that its own route has not, every excl case."
+	e.Rule = "mux.Router on fresh routers: (reg) Handle of one template with result and compiled regexp text; (disp) operation sequences Handle/HandleRemove/DefaultHandle + middlewares, then requests built from Uri-Path options through ServeCOAP with recording handlers; (conc) dispatch while goroutines add/remove routes; (hist) histories on one router: operations and requests interleaved, the same paths sent again after later Handle/HandleRemove/DefaultHandle; (adapt) such histories with every request sent through mux.ToHandler(router), RouteParams recorded as the first middleware / the handler sees them; (reuse/nest) such histories in which all requests are ONE mux.Message with ONE RouteParams object whose Uri-Path options are replaced between dispatches, the first one optionally entering through an outer router whose handler strips a prefix and calls the router; (excl) one request whose scan is observed route by route (hook verifScanPoint): lock probed at every visit, Handle/HandleRemove/DefaultHandle issued by another goroutine while the scan is parked at its k-th route. Distinct = distinct descriptor; non-trivial = a disp case with at least two live routes in which at least one request reached a registered route, a reg case that compiled, or a hist case in which some path was answered by a different route (or default instead of a route, or vice versa) than when it was sent before the operations in between, an adapt case in which a request followed one whose route had a variable name that its own route has not, a reuse/nest case in which a dispatch to a route was handed a RouteParams whose recorded Path differs from the path the message has now, every excl case."
 	rng := NewRng(a.seed)
 	addDisp := func(d c17Disp, tag string) {
 		coq, st := c17RunDisp(d)
@@ -691,6 +691,14 @@ func runC17(a runArgs) error {
 			}
 			coq, st := c17RunAdapt(h)
 			e.AddW(coq, h.adaptDesc(), st.uncovered > 0, 1+st.reqs/2, "adapt")
+		case strings.HasPrefix(a.only, "reuse "), strings.HasPrefix(a.only, "nest "):
+			nested := strings.HasPrefix(a.only, "nest ")
+			h, err := c17ParseHist("hist " + strings.TrimPrefix(strings.TrimPrefix(a.only, "reuse "), "nest "))
+			if err != nil {
+				return err
+			}
+			coq, st := c17RunReuse(h, nested)
+			e.AddW(coq, h.reuseDesc(nested), st.pathChanged > 0, 1+st.reqs/2, "reuse")
 		case strings.HasPrefix(a.only, "excl "):
 			x, err := c17ParseExcl(a.only)
 			if err != nil {
@@ -800,6 +808,8 @@ func runC17(a runArgs) error {
 
 	// the same kind of histories through the adapter mux.ToHandler, RouteParams as the handlers see them
 	c17AddAdaptFamily(e, rng.Fork(), thorough)
+	// ... and with ONE mux.Message / RouteParams object dispatched again and again (also entered through an outer router)
+	c17AddReuseFamily(e, rng.Fork(), thorough)
 
 	// lock discipline witnessed at the scan points of Router.Match
 	c17AddExclFamily(e, rng.Fork(), thorough)
